@@ -216,8 +216,10 @@ class Interp(object):
     if isinstance(v, SOpq):
       f = self.uf("truthy_" + v.kind, [V.opaque_sort(v.kind)], z3.BoolSort())
       return f(v.t)
-    if isinstance(v, (SSet, SMap)):
-      self.unsupported("truthiness of a symbolic set/map")
+    if isinstance(v, SSet):       # non-empty: differs from the empty characteristic array
+      return v.arr != z3.K(v.arr.sort().domain(), z3.BoolVal(False))
+    if isinstance(v, SMap):
+      return v.present != z3.K(v.present.sort().domain(), z3.BoolVal(False))
     if isinstance(v, ObjVal):
       if "__truth__" in v.fields:
         return v.fields["__truth__"](self, v)
@@ -301,6 +303,11 @@ class Interp(object):
     if isinstance(a, ObjVal) or isinstance(b, ObjVal):
       return a is b
     if isinstance(a, (SSet, SMap)) or isinstance(b, (SSet, SMap)):
+      o = b if isinstance(a, (SSet, SMap)) else a
+      if isinstance(a, SSet) and isinstance(b, SSet) and a.arr.sort() == b.arr.sort():
+        return a.arr == b.arr            # extensional
+      if not isinstance(o, (Sym, set, frozenset, dict, list, tuple)):
+        return False                     # a set/dict never equals an object of another kind
       self.unsupported("== on symbolic set/map")
     # mixed kinds (e.g. int vs str): Python gives False
     return False
@@ -321,6 +328,14 @@ class Interp(object):
       if not self.spec and self.ctx.decide(v.isnone):
         self.raise_(TypeError, "unsupported operand type(s) for %s: 'NoneType'" % op, node=node)
       return v.val
+    return v
+
+  def narrow(self, v):
+    """T|None where the code needs a definite value: follows the path (forking when both are
+    feasible) and returns None or the T."""
+    if isinstance(v, SOpt):
+      if self.spec: return v
+      return None if self.ctx.decide(v.isnone) else self.narrow(v.val)
     return v
 
   def less(self, a, b, node=None):
@@ -628,6 +643,15 @@ class Interp(object):
     return self.getattr(base, node.attr, node)
 
   def getattr(self, base, name, node=None):
+    if isinstance(base, SuperRef):
+      mro = base.obj.real_cls.__mro__
+      for k in mro[mro.index(base.after) + 1:]:
+        if name in k.__dict__:
+          a = k.__dict__[name]
+          if isinstance(a, types.FunctionType):
+            return BoundMethod(base.obj, self.func_from_native(a, k))
+          self.unsupported("super().%s is not a plain method" % name, node)
+      self.raise_(AttributeError, "'super' object has no attribute %r" % name, node=node)
     if isinstance(base, ObjVal):
       if name in base.fields:
         v = base.fields[name]
@@ -736,6 +760,13 @@ class Interp(object):
     if isinstance(node.func, ast.Name) and node.func.id in _SPEC_FORMS and \
         fr.is_spec_name(node.func.id):
       return getattr(self, "spec_" + node.func.id)(node, fr)
+    if isinstance(node.func, ast.Name) and node.func.id == "super" and len(node.args) == 2 \
+        and "super" not in fr.env:
+      cls, obj = self.ev(node.args[0], fr), self.ev(node.args[1], fr)
+      if isinstance(obj, ObjVal) and obj.real_cls is not None and isinstance(cls, type) and \
+          cls in obj.real_cls.__mro__:
+        return SuperRef(obj, cls)
+      self.unsupported("super() of %r" % (obj,), node)
     fn = self.ev(node.func, fr)
     args, kwargs = [], {}
     for a in node.args:
@@ -986,7 +1017,8 @@ class Interp(object):
     """Evaluates a clause (python expression text) in spec mode; returns python bool or z3 Bool."""
     tree = clause if isinstance(clause, ast.AST) else ast.parse(clause.strip(), mode="eval").body
     fr = Frame(None, self)
-    fr.env = dict(env)
+    # a local of the function named like a spec form (`old = ...`) must not shadow the form
+    fr.env = {k: v for k, v in env.items() if k not in _SPEC_FORMS}
     fr.spec_names = True
     if self.contract is not None:
       for k, v in self.contract.spec_env(self, fr).items():
@@ -1088,12 +1120,35 @@ class Interp(object):
         else: self.raise_(IndexError, "list assignment index out of range", node=t)
         self.assign_to(t.value, new, fr)
       elif isinstance(base, SMap):
+        if isinstance(idx, SOpt) and not isinstance(base.key, V.Opt):
+          idx = self.narrow(idx)
+          if idx is None: self.unsupported("None as key of a dict keyed by %r" % (base.key,), t)
         self.assign_to(t.value, base.store(idx, v), fr)
       elif isinstance(base, (list, dict)) and not is_symbolic(idx):
         try: base[idx] = v
         except (IndexError, TypeError) as e: self.raise_(type(e), *e.args, node=t)
       else:
         self.unsupported("subscript store on %r" % (base,), t)
+    elif isinstance(t, ast.Call) and isinstance(t.func, ast.Attribute) and \
+        t.func.attr in ("setdefault", "get") and t.args and \
+        all(isinstance(n, (ast.Name, ast.Attribute, ast.Constant, ast.Load, ast.Call, ast.Tuple))
+            for a in [t.func.value, t.args[0]] for n in ast.walk(a)) and \
+        not any(isinstance(n, ast.Call) for a in [t.func.value, t.args[0]] for n in ast.walk(a)):
+      # write-back of an in-place mutation of the object returned by d.setdefault(k, dflt) /
+      # d.get(k, dflt): that object is the one stored under k when k is present (after
+      # setdefault it always is); a default that was not stored is a temporary.
+      base = self.ev(t.func.value, fr)
+      k = self.ev(t.args[0], fr)
+      if isinstance(base, SMap) and isinstance(k, SOpt) and not isinstance(base.key, V.Opt):
+        k = self.narrow(k)
+        if k is None: return               # None is not a key: the mutated object was the default
+      if isinstance(base, SMap):
+        if t.func.attr == "setdefault" or self.ctx.decide(self._bt(self.contains(base, k))):
+          self.assign_to(t.func.value, base.store(k, v), fr)
+      elif isinstance(base, dict) and not is_symbolic(k):
+        if k in base: base[k] = v
+      else:
+        self.unsupported("write-back through %s of %r" % (t.func.attr, base), t)
     else:
       self.unsupported("assignment target %s" % type(t).__name__, t)
 
@@ -1169,7 +1224,11 @@ class Interp(object):
   # -- loops ---------------------------------------------------------------------------------
   def st_For(self, node, fr):
     it = self.ev(node.iter, fr)
+    self.last_enumeration = None
     it = self.models.as_iterable(self, it, node)
+    if self.last_enumeration is not None:
+      # iteration over a set: the (unspecified) order is a ghost sequence the invariants can name
+      fr.store("__iterated__", self.last_enumeration)
     if isinstance(it, list):        # concrete length: unroll (complete, not a bound)
       broke = False
       for x in it:
@@ -1222,7 +1281,7 @@ class Interp(object):
     if it is not None and idx_name: fr.store(idx_name, 0)
     # locals with a declared shape: concrete containers become values of that shape (exactly)
     for name, sh in spec.locals.items():
-      if name in fr.env and isinstance(fr.env[name], (list, dict)) and \
+      if name in fr.env and isinstance(fr.env[name], (list, dict, set)) and \
           not isinstance(fr.env[name], Sym):
         try:
           fr.env[name] = sh.build(sh.leaves(fr.env[name]))
@@ -1351,6 +1410,12 @@ class StarArgs(object):
 
 class MethodRef(object):
   def __init__(self, base, name): self.base, self.name = base, name
+
+
+class SuperRef(object):
+  """super(Cls, obj) for a modelled instance: attribute lookup continues after Cls in the MRO of
+  the REAL class of obj."""
+  def __init__(self, obj, after): self.obj, self.after = obj, after
 
 
 _SPEC_FORMS = ("forall", "exists", "implies", "old", "ite")
